@@ -145,6 +145,9 @@ func rulesC05(c *Ctx) {
 	delimitedC05(c)
 	readVerbatimRule(c, "C05.readverbatim")
 	runeFaceRule(c, "C05.runeface")
+	accountedRule(c, "C05.accounted")
+	rawReadRule(c, "C05.rawread")
+	charWidthRule(c, "C05.charwidth")
 	identQuoteRule(c, "C05.identquote")
 	errPosRule(c, "C05.errpos")
 	errTokenRule(c, "C05.errtoken")
